@@ -29,7 +29,7 @@ def pkg_name_of(pkgdir):
                     return m.group(1)
     raise RuntimeError("no package in " + d)
 
-def build_overlay(check_id, pkgdir, harness_dir, transforms=(), moddir=""):
+def build_overlay(check_id, pkgdir, harness_dir, transforms=(), moddir="", common=()):
     """Create the overlay files for package REPO/moddir/pkgdir.
     Returns (overlay_json_path, list_of_harness_names, transformed_files)."""
     work = os.path.join(OUT, check_id, "overlay")
@@ -43,11 +43,14 @@ def build_overlay(check_id, pkgdir, harness_dir, transforms=(), moddir=""):
     def add(virt_name, content):
         real = os.path.join(work, virt_name.replace("/", "__"))
         open(real, "w").write(content)
-        ov[os.path.join(REPO, pdir, virt_name)] = real
+        ov[os.path.normpath(os.path.join(REPO, pdir, virt_name))] = real
     for tmpl, outn in (("zz_verif_api.go.tmpl", "zz_verif_api.go"),
                        ("zz_verif_replay_test.go.tmpl", "zz_verif_replay_test.go")):
         s = open(os.path.join(VERIF, "harness", "common", tmpl)).read().replace("PKGNAME", pkg)
         add(outn, s)
+    for c in common:
+        s = open(os.path.join(VERIF, "harness", "common", "zz_verif_%s.go.tmpl" % c)).read().replace("PKGNAME", pkg)
+        add("zz_verif_%s.go" % c, s)
     for f in sorted(os.listdir(hdir)):
         if not f.endswith(".go"):
             continue
